@@ -106,7 +106,69 @@ def assign_case(case):
     return dict(key=case[1:], nontrivial=True, failures=fails, sample=dict(datatype=dt, value=repr(value), valid=valid, vlevel=vlevel, first_error_at=stage))
 
 
+def _posvalues():
+    A = gfapy.Alignment
+    OL = gfapy.OrientedLine
+    return [
+        ("P\tp\ta+,b+\t*", "gfa1", "overlaps", [([A("2M", version="gfa1")], True), ([A("2M", version="gfa1"), A("*", version="gfa1")], True), ([[12, 5]], False), ([], False), ([gfapy.Trace([12, 5])], False)]),
+        ("P\tp\ta+,b+\t*", "gfa1", "segment_names", [([OL("a", "+"), OL("c", "-")], True), ([], False), ([OL("a", "x")], False)]),
+        ("S\ta\t8\t*", "gfa2", "slen", [(9, True), ("x", False), (1.5, False)]),
+        ("S\ta\t*", "gfa1", "sequence", [("ACGT", True), ("AC GT", False), (5, False)]),
+        ("E\te\ta+\tb-\t0\t2\t2\t4$\t*", "gfa2", "beg1", [(1, True), (-1, False), ("x", False)]),
+        ("E\te\ta+\tb-\t0\t2\t2\t4$\t*", "gfa2", "alignment", [(A("2M"), True), (A("1,2"), True), (A("5M5=", version="gfa1"), False), ("x", False)]),
+        ("U\tu\ta b", "gfa2", "items", [(["a", "c"], True), ([], False), (["a b"], False)]),
+        ("O\to\ta+ b-", "gfa2", "items", [([OL("a", "+")], True), ([], False), ([OL("a b", "+")], False)]),
+        ("G\tg\ta+\tb-\t10\t*", "gfa2", "disp", [(5, True), ("x", False)]),
+        ("S\ta\t*", "gfa1", "name", [("b", True), ("a b", False), ("a+,b", False)]),
+        ("F\ta\tx+\t0\t4\t0\t4\t*", "gfa2", "s_end", [(5, True), ("x", False), (-2, False)]),
+    ]
+
+
+def assignpos_case(case):
+    """a decoded value assigned to a POSITIONAL field of an unconnected line: a valid one is never rejected; an invalid one is reported at
+    the assignment at level 3, at the latest when the line is written at level 2, and by validate() / validate_field() at every level"""
+    _, idx, vidx, vlevel = case
+    text, version, field, vals = _posvalues()[idx]
+    value, valid = vals[vidx]
+    fails = []
+    def fail(sig, what):
+        fails.append(dict(signature="C18:positional:" + sig, what=what, case=dict(line=text, field=field, value=repr(value), valid=valid, vlevel=vlevel),
+                          reproducer="import gfapy\nl = gfapy.Line(%r, version=%r, vlevel=%d)\nl.set(%r, <%s>)\nprint(str(l)); l.validate_field(%r); l.validate()" % (text, version, vlevel, field, repr(value), field)))
+    l = gfapy.Line(text, version=version, vlevel=vlevel)
+    stage = None
+    def attempt(name, f):
+        nonlocal stage
+        try:
+            f(); return True
+        except gfapy.Error:
+            stage = stage or name; return False
+        except Exception as e:
+            fail("foreign-exception:%s:%s:%s" % (name, field, type(e).__name__), "%r: %s" % (value, harness.short(e, 120)))
+            stage = stage or name; return False
+    s_ok = attempt("set", lambda: l.set(field, value))
+    w_ok = None
+    if s_ok:
+        w_ok = attempt("write", lambda: str(l))
+        if w_ok and "INVALID" in str(l):
+            w_ok = False; stage = stage or "write-marker"
+    v_ok = attempt("validate", lambda: l.validate()) if s_ok else None
+    vf_ok = attempt("validate_field", lambda: l.validate_field(field)) if s_ok else None
+    if valid:
+        if stage is not None:
+            fail("valid-assignment-rejected:%s:level%d:%s" % (field, vlevel, stage), repr(value))
+    else:
+        if vlevel >= 3 and s_ok:
+            fail("invalid-assignment-not-reported-at-set:%s" % field, repr(value))
+        if vlevel == 2 and s_ok and w_ok:
+            fail("invalid-assignment-written-at-level2:%s" % field, "%r -> %s" % (value, str(l)))
+        if s_ok and (v_ok or vf_ok):
+            fail("invalid-assignment-passes-%s:%s:level%d" % ("validate" if v_ok else "validate_field", field, vlevel), repr(value))
+    return dict(key=case[1:], nontrivial=True, failures=fails, sample=dict(field=field, value=repr(value), valid=valid, vlevel=vlevel, first_error_at=stage))
+
+
 def check(case):
+    if case[0] == "assignpos":
+        return assignpos_case(case)
     return doc_case(case) if case[0] == "doc" else assign_case(case)
 
 
@@ -133,6 +195,10 @@ def cases(tier, seed):
                         out.append(("assign", version, dt, v, False, vlevel, declared))
                 for v in good:
                     out.append(("assign", version, dt, v, True, vlevel, False, True))
+    for i, (_t, _v, _f, vals) in enumerate(_posvalues()):
+        for j in range(len(vals)):
+            for vlevel in (0, 1, 2, 3):
+                out.append(("assignpos", i, j, vlevel))
     return out
 
 
@@ -142,6 +208,6 @@ if __name__ == "__main__":
     res = harness.run(cs, check,
                       rule="(a) catalogue documents and every tag datatype x value pool at vlevel 0,1,2,3: acceptance monotone (accepted at k => accepted at k-1), same canonical content, same text; "
                            "(b) assignment programs: for every tag datatype, valid and invalid Python values are set on a declared / newly typed tag at each level, then written, validated and field-validated: "
-                           "a valid value is never rejected (also when a clone of the line was given a tag of that name with another kind of value first), and writes the same text; an invalid one is reported at set (level 3), at the latest at write (level 2), and by validate()/validate_field() at every level",
+                           "the same for decoded values assigned to positional fields (lists of alignments / oriented identifiers / identifiers, positions, lengths, names, sequences, alignments): a valid value is never rejected (also when a clone of the line was given a tag of that name with another kind of value first), and writes the same text; an invalid one is reported at set (level 3), at the latest at write (level 2), and by validate()/validate_field() at every level",
                       bound="single assignment per line; documents <=%d primary lines" % (2 if tier == "quick" else 3), exhaustive=False)
     harness.emit(res)
